@@ -44,9 +44,9 @@ EXTRA = ['u0', 'u1', 'u2']
 
 def plan(tier, seed):
     specs = [dict(kind='small', seed=seed)]
-    for s in range(12 if tier == 'thorough' else 6):
+    for s in range(48 if tier == 'thorough' else 6):
         specs.append(dict(kind='random', seed=seed * 100 + s,
-                          examples=1200 if tier == 'thorough' else 250))
+                          examples=2500 if tier == 'thorough' else 250))
     return specs
 
 
